@@ -397,6 +397,18 @@ func runC18(w *World, r *Report) {
 			}
 		}
 		r.Check(ok, "C18.history", fmt.Sprintf("pre-handler %s appends its input to the history", w.fname(lit)), lit.Pos(), "state.Messages = append(state.Messages, input...)", "the message handed to this node is not recorded in the history (later model calls do not see it)")
+		// … and every store to the history is such an append: the history never BECOMES the slice the handler was
+		// handed (later appends of the run would write into spare capacity of the caller's backing array)
+		for _, fw := range fieldWrites(lit) {
+			if !sameField(fw.field, fMsgs) {
+				continue
+			}
+			adopted := fw.val == ssa.Value(inParam)
+			if sl, isSl := fw.val.(*ssa.Slice); isSl && sl.X == ssa.Value(inParam) {
+				adopted = true
+			}
+			r.Check(!adopted, "C18.history", fmt.Sprintf("pre-handler %s: the history is not the caller's slice", w.fname(lit)), fw.in.Pos(), "state.Messages is only ever appended to", "the history adopts the slice the handler was handed (state.Messages = input): the run's later appends write into spare capacity of the caller's backing array — running on conversation[:1] overwrites conversation[1] and [2], a later run on conversation[:3] shows the model run 1's assistant message and tool result instead of the original messages, two overlapping runs on one slice share one history")
+		}
 		// modifier argument is a fresh copy
 		instrs(lit, func(in ssa.Instruction) {
 			c, ok := in.(*ssa.Call)
